@@ -1,6 +1,8 @@
 //! vmverif — correspondence harness for the Lean model of vm-memory.
 //! usage: vmverif <world> <seed> <n> <outdir> [opts…]   |   vmverif replay <world> <opsfile> <outdir>
+mod atomicw;
 mod bitmap;
+mod copyw;
 mod guest;
 mod pure;
 mod rng;
@@ -67,6 +69,8 @@ fn main() {
             let mode = opts.iter().find(|o| ["mixed", "edit", "exhaustive"].contains(o)).copied().unwrap_or("mixed");
             guest::run(&mut rec, &mut rng, n, mode);
         }
+        "copy" => copyw::run(&mut rec, &mut rng, n, if opts.contains(&"tear") { 2 } else { 0 }),
+        "atomic" => atomicw::run(&mut rec, &mut rng, n, opts.contains(&"thorough")),
         "bitmap" => bitmap::run(&mut rec, &mut rng, n, opts.contains(&"exhaustive")),
         _ => {
             eprintln!("unknown world {}", world);
@@ -86,6 +90,8 @@ enum SlAny {
 }
 
 thread_local! {
+    static CP: std::cell::RefCell<copyw::CopyWorld> = std::cell::RefCell::new(copyw::CopyWorld::new());
+    static AT: std::cell::RefCell<atomicw::AtomicWorld> = std::cell::RefCell::new(atomicw::AtomicWorld::new());
     static GM: std::cell::RefCell<guest::GmWorld> = std::cell::RefCell::new(guest::GmWorld::new());
     static SL: std::cell::RefCell<SlAny> = std::cell::RefCell::new(SlAny::Unit(slice::SliceWorld::empty()));
     static BM: std::cell::RefCell<bitmap::BmWorld> = std::cell::RefCell::new(bitmap::BmWorld::new());
@@ -96,6 +102,8 @@ fn exec_line(rec: &mut Rec, world: &str, line: &str, chk: bool) -> String {
         return "ok".into();
     }
     match world {
+        "copy" => CP.with(|w| w.borrow_mut().exec(rec, line)),
+        "atomic" => AT.with(|w| w.borrow_mut().exec(rec, line)),
         "gm" => GM.with(|w| w.borrow_mut().exec(rec, line)),
         "slice" => SL.with(|w| {
             // replay: the flavour is named by the `s.new` line
